@@ -30,7 +30,8 @@ SANDBOX = "/tmp/c20/w%d" % os.getpid()
 CORPUS = os.path.join(C.VERIF, "corpus", "C20")
 
 # installed apps of the sandbox: (AppConfig.name, directory below the sandbox, sys.path root below the sandbox)
-APPS = [("c20app", "site/c20app", "site"), ("c20pkg.inner", "site/c20pkg/inner", "site"), ("papp", "proj/papp", "proj")]
+APPS = [("c20app", "site/c20app", "site"), ("c20pkg.inner", "site/c20pkg/inner", "site"), ("papp", "proj/papp", "proj"),
+        ("_c20legacy", "site/_c20legacy", "site")]      # a package name starting with "_": NOT subject to the underscore rule
 
 T_DIR = "c20-directory-returned-as-file"
 T_DOT = "c20-dotted-name"
@@ -39,6 +40,7 @@ T_SEL = "c20-selection"
 T_IMP = "c20-import-path"
 T_ONCE = "c20-each-once"
 T_EXC = "c20-unexpected-exception"
+T_AUTO = "c20-autodiscover-not-every-entry"
 builtins._c20_loaded = []
 
 
@@ -48,7 +50,8 @@ builtins._c20_loaded = []
 def _skeleton():
     """Directories/files every sandbox contains (the app packages must stay importable)."""
     return {"proj": {"papp": {"__init__.py": None}},
-            "site": {"c20app": {"__init__.py": None}, "c20pkg": {"__init__.py": None, "inner": {"__init__.py": None}}}}
+            "site": {"c20app": {"__init__.py": None}, "c20pkg": {"__init__.py": None, "inner": {"__init__.py": None}},
+                     "_c20legacy": {"__init__.py": None}}}
 
 
 def merge(a, b):
@@ -476,8 +479,9 @@ def _run_autodiscover(case, map_module=None):
     err = None
     with configured(case):
         try:
-            autodiscover(map_module)
+            _run_autodiscover.returned = autodiscover(map_module)
         except Exception as e:  # noqa
+            _run_autodiscover.returned = None
             err = "%s: %s" % (type(e).__name__, e)
     loaded = {os.path.realpath(f) for f in builtins._c20_loaded}
     for k in set(sys.modules) - before:
@@ -507,7 +511,25 @@ def autodiscover_oracle(chk, case):
         extra_ok = all(shadowed(f, r) or in_class(f) for f in loaded - set(expected) for d, r, _ in src if f.startswith(d + os.sep))
         return err is None and set(want) <= loaded and extra_ok, sorted(loaded)
 
+    with configured(case):
+        ents = [(e.dot_path, os.path.realpath(str(e.filepath))) for e in get_component_files(".py")]
+
+    def returned_ok(mapping=lambda n: n):
+        """autodiscover() imports (and returns) one module per entry of get_component_files('.py') - no further filter.
+        Judged whenever no import raised; independent of the tree walk above."""
+        ret = _run_autodiscover.returned
+        if ret is None or sorted(ret) == sorted(mapping(dot) for dot, _ in ents):
+            return True
+        missing = sorted(set(mapping(dot) for dot, _ in ents) - set(ret))
+        chk.fail(T_AUTO, "autodiscover() returned %s: not one import per entry of get_component_files('.py'); not imported: %s, "
+                 "not an entry: %s" % (sorted(ret), missing, sorted(set(ret) - set(mapping(dot) for dot, _ in ents))),
+                 replay_obj(case, ".py", kind="autodiscover"))
+        return False
+
     err, loaded, already = _run_autodiscover(case)
+    case["_autodiscover_returned"] = _run_autodiscover.returned       # for the correspondence (Model.autodiscover)
+    if not returned_ok():
+        return False
     ok, shown = judge(err, loaded, already, expected)
     if ok:
         return True
@@ -519,9 +541,6 @@ def autodiscover_oracle(chk, case):
             replay_obj(case, ".py", kind="autodiscover"))
     # second run: neutralise (map_module) the dot paths of files that no dotted name can import - the dotted-name class
     # (decided on the file path) and files shadowed by a sibling (the layout, not the library) - and demand the rest
-    with configured(case):
-        ents = [(e.dot_path, os.path.realpath(str(e.filepath))) for e in get_component_files(".py")]
-
     def unimportable(fp):
         return in_class(fp) or any(shadowed(fp, root) for d, root, _ in src if fp.startswith(d + os.sep))
     keep = {dot for dot, fp in ents if not unimportable(fp)}
@@ -531,6 +550,8 @@ def autodiscover_oracle(chk, case):
         report(T_DOT, err, shown, expected)
     if neutral:
         err, loaded, already = _run_autodiscover(case, lambda name: "builtins" if name in neutral else name)
+        if not returned_ok(lambda name: "builtins" if name in neutral else name):
+            return False
     ok, shown = judge(err, loaded, already, clean)      # (nothing to neutralise: the first run, judged on the rest)
     if not ok or not (dotted or neutral):
         report(T_IMP, err, shown, clean if (dotted or neutral) else expected,
@@ -556,7 +577,9 @@ DOT_F = ["my.comp.py", "a..py", "ab..cd.py", "a.__init__.py", "a.b.js", "x.min.j
 # candidate component directories (below the sandbox)
 CAND = ["proj/components", "proj/ui/comps", "proj", "proj/papp/components", "proj/components/sub", "other/comps",
         "proj/missing", "site/c20app/components", "site/c20pkg/inner/components", "site/c20app/comps",
-        "site/c20pkg/inner/ui/comps", "proj/papp/comps"]
+        "site/c20pkg/inner/ui/comps", "proj/papp/comps", "proj/_shared/components", "site/_c20legacy/components",
+        "site/_c20legacy/comps"]
+CFG_CAND = CAND[:7] + ["proj/_shared/components"]        # what COMPONENTS.dirs / STATICFILES_DIRS entries point at
 # configured directories whose path contains glob metacharacters (must be taken literally: fix dfdce86); the sibling
 # names below make a live pattern observable (c[1] would match c1, x*y would match xzy, q? would match qa)
 # non-canonical spellings of a configured directory (see spelled_parts); "config"/"zz" need not exist
@@ -611,7 +634,7 @@ def gen_case(rng, dots=0.0, odd=0.25):
 
     def ents(k):
         out = []
-        for cand in rng.sample(CAND[:7] + CAND[:2], k):
+        for cand in rng.sample(CFG_CAND + CAND[:2], k):
             e = {"form": rng.choice(forms_ok), "p": cand}
             if rng.random() < 0.3:          # a non-canonical spelling of the same directory
                 sp = rng.choice(SPELLINGS)
@@ -687,7 +710,8 @@ def case_term(case, obs):
     dq = clist(["(%s, %s)" % (cbool(ia), res_term(r, lambda l: clist([cpath(rel_parts(p)) for p in l]))) for ia, r in obs["dirs"]])
     iq = clist(["(%s, %s, %s)" % (cpath(root.split("/")), cstr(name), copt(o, cpath)) for root, name, o in obs["finds"]])
     tq = clist(["(%s, %s)" % (cpath(rel), cbool(b)) for rel, b in obs["triggers"]])
-    return "(%s, %s, %s, %s, %s)" % (world_term(case, obs["tree"]), fq, dq, iq, tq)
+    aq = copt(obs.get("autodiscover"), lambda names: clist([cstr(n) for n in names]))
+    return "(%s, %s, %s, %s, %s, %s)" % (world_term(case, obs["tree"]), fq, dq, iq, tq, aq)
 
 
 TRIG_NAMES = DOT_F + ["a.py", "noext", "z.", ".py", ".h.py", "a.b", "..", "a.b.c", "__init__.py", "x.", ".x", "a..", "..a"]
@@ -720,7 +744,7 @@ def import_queries(rng, case, obs, extra=3):
         if suf == ".py" and r[0] == "ok":
             names |= {dot for dot, _ in r[1]}
     roots = ["proj", "site", case["base"]]
-    stems = ["proj", "components", "papp", "c20app", "c20pkg", "inner", "a", "b", "sub", "m", "ui", "comps", "pkg", "x", "my", "comp", "__init__"]
+    stems = ["proj", "components", "papp", "c20app", "c20pkg", "inner", "a", "b", "sub", "m", "ui", "comps", "pkg", "x", "my", "comp", "__init__", "_shared", "_c20legacy"]
     for _ in range(extra):
         names.add(".".join(rng.choice(stems) for _ in range(rng.randint(1, 4))))
     for name in sorted(names):
@@ -732,6 +756,16 @@ def import_queries(rng, case, obs, extra=3):
     return qs
 
 
+def underscore_ancestors(case):
+    """The layout has underscore-prefixed names ABOVE a component directory (a configured dir below proj/_shared, or the app
+    package _c20legacy holding an app dir): such sandboxes are always really imported with autodiscover()."""
+    ents = (case["dirs"] or []) + case["static"]
+    if any("/_" in "/" + (e.get("p") or "") for e in ents):
+        return True
+    leg = case["tree"].get("site", {}).get("_c20legacy", {})
+    return any(isinstance(leg.get(ad.split("/")[0]), dict) for ad in case["app_dirs"] if ad)
+
+
 def run_case(chk, case, suffixes, kind, terms, cases, do_auto=False):
     try:
         obs = observe(case, suffixes)
@@ -740,8 +774,15 @@ def run_case(chk, case, suffixes, kind, terms, cases, do_auto=False):
         chk.count(json.dumps(case, sort_keys=True), False, kind=kind)
         return None
     failed = oracle(chk, case, obs)
-    if do_auto and case["base"] == "proj" and sources_of(case) is not None and all(r[0] == "ok" for _, r in obs["files"]):
+    if (do_auto or underscore_ancestors(case)) and case["base"] == "proj" and sources_of(case) is not None \
+            and all(r[0] == "ok" for _, r in obs["files"]):
         autodiscover_oracle(chk, case)
+        obs["autodiscover"] = case.pop("_autodiscover_returned", None)
+        st = chk.extra.setdefault("autodiscover_runs", {"sandboxes_really_imported": 0, "with_underscore_ancestors": 0,
+                                                         "return_value_compared_with_model": 0})
+        st["sandboxes_really_imported"] += 1
+        st["with_underscore_ancestors"] += bool(underscore_ancestors(case))
+        st["return_value_compared_with_model"] += obs["autodiscover"] is not None
     nt = nontrivial(obs)
     sample = None
     if nt and kind == "random" and len(chk.samples) < 6:
